@@ -640,6 +640,24 @@ def h_text_one_line(ctx, afi):
     cfg = one_line_configuration()
     cfg.static.clear()
     cfg.flow.clear()
+    if perm == perms[0] and not vpn and ctx.choice('prefix-of-the-other-family', 2):
+        # `announce ipv4 flow destination <ipv6 prefix>`: the family of the command and of the prefix disagree.  Refusing is fine;
+        # accepting means an NLRI of the command's family which the RFC decoder of THAT family reads back as the prefix written
+        other = '2001:db8::/32' if afi == V4 else '10.0.0.0/8'
+        line = 'flow destination %s discard' % other
+        ok = cfg.partial('ipv4' if afi == V4 else 'ipv6', line, 'announce')
+        if not ok:
+            ctx.cover('family-mismatch-refused')
+            return (line, 'refused')
+        cfg.scope.to_context()
+        routes = cfg.scope.pop_routes()
+        ctx.cover('family-mismatch-accepted')
+        wire = bytes(routes[0].nlri.pack_nlri(None)) if routes else b''
+        back = O.flow_decode(wire, afi, bool) if routes else ('none',)
+        ctx.check('accepted-means-sendable-as-written', False,
+                  sig='C16:text:one-line:prefix-of-the-other-family-accepted', info={'line': line, 'wire': wire.hex(), 'nlri-afi': int(routes[0].nlri.afi) if routes else None,
+                                                                                      'reads-back-as': str(back)[:200]})
+        return (line, 'accepted')
     ok = cfg.partial('ipv4' if afi == V4 else 'ipv6', line, 'announce')
     if not ctx.check('accepted', bool(ok), sig='C16:text:one-line:refused', info={'line': line, 'error': str(cfg.error)[-200:]}):
         return (line, 'refused')
